@@ -48,7 +48,7 @@ def resolve_nfft(kind, N):
 def cases(c):
     rng = c.rng('cases')
     out = []
-    n = 260 if c.tier == 'quick' else 9000
+    n = 260 if c.tier == 'quick' else 36000
     for cls in E.CLASSES:
         for i in range(n):
             cplx = int(i % 2 == 0)
